@@ -564,6 +564,22 @@ def run_property(prop, tier, seed):
             json.dump(dict(property=prop, forbidden_tokens=hits, theorems=details), open(rp, 'w'), indent=1)
             violation(rp, ' no-failing-input-found')
 
+    # --- thorough: independent re-check of the compiled property modules ---------------------
+    leanchecker = None
+    if ok and tier == 'thorough':
+        mods = sorted('Chess.Props.' + os.path.basename(f)[:-5] for f in glob.glob(os.path.join(LEAN, 'Chess', 'Props', prop + '*.lean')))
+        bad = []
+        for mname in mods:
+            rc_l, out_l = sh(f'lake env leanchecker {mname} 2>&1', cwd=LEAN, timeout=3600)
+            if rc_l != 0:
+                bad.append(dict(module=mname, output=out_l[-800:]))
+        leanchecker = dict(modules=mods, failed=bad)
+        if bad:
+            rp = os.path.join(VERIF, 'replays', f'{prop}-leanchecker.json')
+            os.makedirs(os.path.dirname(rp), exist_ok=True)
+            json.dump(dict(property=prop, broken='leanchecker rejected a compiled property module', details=bad), open(rp, 'w'), indent=1)
+            violation(rp, ' no-failing-input-found')
+
     # --- correspondence ------------------------------------------------------------------
     okh, logh = build_harness()
     rundirs = {}
@@ -664,6 +680,8 @@ def run_property(prop, tier, seed):
         per_op=stats['per_op'], groups=list(spec['groups']), timing=timing, generator=gen,
         model_disagreements=len(model_dis), exhaustive=bool(reg.get('exhaustive_tie', False)),
     )
+    if leanchecker is not None:
+        cov['leanchecker'] = leanchecker
     for k in ('transposition_keys', 'distinct_moves_roundtripped', 'invalid_positions', 'key_table', 'corpus_ops'):
         if k in stats:
             cov[k] = stats[k]
